@@ -522,9 +522,19 @@ def consumers(rep, prog):
         from ..model import facts_at
         for x, truth in facts_at(rn, ri, cl):
             if x.get("k") == "BinaryOperator" and x.get("op") in ("<", ">", "<=", ">="):
-                l, r = render(x["c"][0]), render(x["c"][1])
-                lt = ("get_simulation_time" in l and "simulation_duration_" in r and x["op"] == "<") or ("simulation_duration_" in l and "get_simulation_time" in r and x["op"] == ">")
-                ge = ("get_simulation_time" in l and "simulation_duration_" in r and x["op"] == ">=") or ("simulation_duration_" in l and "get_simulation_time" in r and x["op"] == "<=")
+                def _is_T(e_):
+                    e_ = strip(e_)
+                    while e_.get("k") == "ParenExpr" and e_.get("c"):
+                        e_ = strip(e_["c"][0])
+                    return e_.get("k") == "MemberExpr" and (e_.get("ref") or {}).get("name") == "simulation_duration_"
+                def _is_t(e_):
+                    e_ = strip(e_)
+                    while e_.get("k") == "ParenExpr" and e_.get("c"):
+                        e_ = strip(e_["c"][0])
+                    return e_.get("k") == "CXXMemberCallExpr" and e_.get("callee", "").endswith("::get_simulation_time")
+                # the bound is the duration itself, not an expression built from it (T - dt/2 stops up to half a step early)
+                lt = (_is_t(x["c"][0]) and _is_T(x["c"][1]) and x["op"] == "<") or (_is_T(x["c"][0]) and _is_t(x["c"][1]) and x["op"] == ">")
+                ge = (_is_t(x["c"][0]) and _is_T(x["c"][1]) and x["op"] == ">=") or (_is_T(x["c"][0]) and _is_t(x["c"][1]) and x["op"] == "<=")
                 if (lt and truth) or (ge and not truth):
                     good = True
     if good:
